@@ -1,4 +1,7 @@
 """C02 binder: AOEF save/load documents are self-contained.  Encoder only -- the verdict is T_AoefC02's."""
+import os
+# the registry hooks are enabled by an environment variable read when soundevent is imported
+os.environ.setdefault("SOUNDEVENT_VERIF", "/verif/.work/hook_unrouted.ndjson")
 from pathlib import Path
 from checks import aoef_common as ac
 
@@ -19,9 +22,29 @@ TRUSTED_BASE = ["checks/aoef_common.py: build_world (objects from TLC's descript
 ASSUMPTIONS = ["terms are simple-label terms; feature labels distinct within a list; finite floats; no object repeated within one list",
                "acyclic sequence parents"]
 
+EVENT_TRACES = ("T_AoefTrace",)
+TRACE_EVERY = {"quick": 3, "thorough": 1}
+_TIER = os.environ.get("VERIF_TIER", "quick")
+
 def execute(case):
     WORK.mkdir(parents=True, exist_ok=True)
-    return ac.run_cycles(case, WORK)
+    out = ac.run_cycles(case, WORK)
+    if not out["hooks"]:
+        raise ac.Machinery("SOUNDEVENT_VERIF hooks are not active (soundevent._verif missing or disabled)")
+    if out["cycles"] and out["cycles"][0]["saved"] == "" and not any(ev["e"] == "store" for ev in out["traces"][0]) \
+            and any(out["cycles"][0]["doc"]["defs"].values()):
+        raise ac.Machinery("no 'store' event was recorded although the document defines objects (hook removed?)")
+    return out
+
+def trace_module(o):
+    """every observation is judged on its document; every k-th one also has its hook trace walked by the registry machine"""
+    return ["T_AoefC02", "T_AoefTrace"] if o["id"] % TRACE_EVERY.get(_TIER, 3) == 0 else ["T_AoefC02"]
+
+def project(tm, o):
+    if tm == "T_AoefTrace":
+        return {"id": o["id"], "in": {"ctype": o["in"]["ctype"], "objs": o["in"]["objs"]}, "out": {"traces": o["out"].get("traces", [])} if "crashed" not in o["out"] else o["out"]}
+    out = dict(o["out"]); out.pop("traces", None)
+    return {"id": o["id"], "in": o["in"], "out": out}
 
 def random_cases(rng, tier):
     """random object graphs an order of magnitude larger than the enumerated worlds"""
